@@ -4,8 +4,8 @@ import Pyxv.Proofs.ProcessLemmas
 
 Property theorems over `Pyxv.Model.Process` (lemmas in `ProcessLemmas.lean`).  Each theorem is
 followed by an `example` showing that non-trivial data meets its hypotheses; the `decide`
-counter-witnesses are the negations for the code *before* the repairs 80d96d7 / 4dc1fa1 / 7bdea8a and
-for the open findings.
+counter-witnesses are the negations for the code *before* the repairs 80d96d7 / 4dc1fa1 / 7bdea8a /
+1948d14 and for hypothetical defect classes (stale keys, set de-duplication, key-inserting reads).
 -/
 namespace Pyxv.C14
 open Pyxv Pyxv.Process
@@ -89,35 +89,46 @@ theorem xml_idempotent (s s' : SurveyState) (h : afterXml s = .ok s') : xml s' =
   have hx : xml s = .ok (render s') := by simp [xml, h, Except.map]
   rw [hx]
   unfold afterXml at h
-  have hr := redirect_idem h
-  -- nsAppend and redirectSearch touch different fields
-  unfold redirectSearch at h
-  split at h
-  · cases h
-  · rename_i hnone
-    simp only [Except.ok.injEq] at h
-    unfold xml afterXml
-    by_cases he : s.entityFeatures
-    · have hs' : s'.entityFeatures = true := by rw [← h]; simp [nsAppend, he]
-      have hns : s'.namespaces = some (s.namespaces.getD [] ++ [entitiesDecl]) := by rw [← h]; simp [nsAppend, he]
-      have h2 : redirectSearch (nsAppend s') = .ok { s' with namespaces := some ((s.namespaces.getD [] ++ [entitiesDecl]) ++ [entitiesDecl]) } := by
-        unfold redirectSearch at hr ⊢
-        split at hr
-        · cases hr
-        · rename_i hn'
-          simp only [Except.ok.injEq] at hr
-          simp only [nsAppend, hs', if_true, hns, Option.getD_some] at hn' ⊢
-          simp only [hn']
-          congr 1
-          conv => rhs; rw [← hr]
-      rw [h2]
-      simp only [Except.map, render, hns, Except.ok.injEq]
-      congr 1
-      exact nsmapOf_append_again baseNsmap _ entitiesDecl
-    · have hs' : s'.entityFeatures = false := by rw [← h]; simp [nsAppend, he]
-      have : nsAppend s' = s' := by simp [nsAppend, hs']
-      rw [this, hr]
-      rfl
+  cases hv : validateTriggers s with
+  | error e => rw [hv] at h; cases h
+  | ok u =>
+    rw [hv] at h
+    change redirectSearch (nsAppend s) = .ok s' at h
+    have hr := redirect_idem h
+    have hkeep := redirect_keeps h
+    have hv' : validateTriggers s' = .ok u := by
+      rw [← hv]
+      exact validate_congr (hkeep.1.trans (nsAppend_keeps s).1) (hkeep.2.trans (nsAppend_keeps s).2)
+    -- nsAppend and redirectSearch touch different fields
+    unfold redirectSearch at h
+    split at h
+    · cases h
+    · rename_i hnone
+      simp only [Except.ok.injEq] at h
+      unfold xml afterXml
+      rw [hv']
+      change Except.map render (redirectSearch (nsAppend s')) = Except.ok (render s')
+      by_cases he : s.entityFeatures
+      · have hs' : s'.entityFeatures = true := by rw [← h]; simp [nsAppend, he]
+        have hns : s'.namespaces = some (s.namespaces.getD [] ++ [entitiesDecl]) := by rw [← h]; simp [nsAppend, he]
+        have h2 : redirectSearch (nsAppend s') = .ok { s' with namespaces := some ((s.namespaces.getD [] ++ [entitiesDecl]) ++ [entitiesDecl]) } := by
+          unfold redirectSearch at hr ⊢
+          split at hr
+          · cases hr
+          · rename_i hn'
+            simp only [Except.ok.injEq] at hr
+            simp only [nsAppend, hs', if_true, hns, Option.getD_some] at hn' ⊢
+            simp only [hn']
+            congr 1
+            conv => rhs; rw [← hr]
+        rw [h2]
+        simp only [Except.map, render, hns, Except.ok.injEq]
+        congr 1
+        exact nsmapOf_append_again baseNsmap _ entitiesDecl
+      · have hs' : s'.entityFeatures = false := by rw [← h]; simp [nsAppend, he]
+        have : nsAppend s' = s' := by simp [nsAppend, hs']
+        rw [this, hr]
+        rfl
 
 /-- … hence any number of regenerations -/
 theorem xml_stable (s : SurveyState) : ∀ (n : Nat) (sn : SurveyState),
@@ -148,7 +159,16 @@ example : asetAll [(1, "a")] [(2, "x"), (1, "b"), (2, "y")] = [(1, "b"), (2, "y"
 def demoSurvey : SurveyState :=
   { entityFeatures := true, namespaces := some ["esri=\"http://esri.com/xforms\"".toList],
     lists := [("fruits".toList, false), ("yn".toList, false)],
-    selects := [⟨"q1".toList, "fruits".toList, true, "fruits".toList⟩, ⟨"q2".toList, "yn".toList, false, "yn".toList⟩] }
+    selects := [⟨"q1".toList, "fruits".toList, true, "fruits".toList⟩, ⟨"q2".toList, "yn".toList, false, "yn".toList⟩],
+    names := ["head".toList, "name".toList, "age".toList, "spouse".toList, "name".toList, "q1".toList, "q2".toList],
+    triggerRefs := ["age".toList] }
+
+/-- Counter-witness for the defect class "generation inserts keys into the trigger maps" (a
+`defaultdict` read by index): with the same name in two groups the second `xml()` fails although the
+first succeeded. -/
+theorem inserting_trigger_keys_not_idempotent :
+    (afterXmlInserting demoSurvey).toOption.map (fun s => (xml s).toOption.isSome) = some false
+      ∧ (xml demoSurvey).toOption.isSome = true := by decide
 
 -- the state does change (the namespace string grows: F36) …
 example : (afterXml demoSurvey).toOption.bind (fun s => (afterXml s).toOption.map (·.namespaces))
@@ -197,20 +217,33 @@ example : padFixed demoTrans =
      ("fr".toList, [("/d/q:label".toList, ["long".toList]), ("/d/q:hint".toList, ["long".toList, "guidance".toList])])] := by
   decide
 
-/-- OPEN (N1): without `external_choices_header` the itemsets.csv header follows a set -/
-theorem itemsets_header_fallback_order_dependent :
-    itemsetsHeader SetOrder.rev none [["list_name".toList, "name".toList], ["name".toList, "state".toList]]
-      ≠ itemsetsHeader SetOrder.id none [["list_name".toList, "name".toList], ["name".toList, "state".toList]] := by decide
+/-- before 1948d14 (N1): without `external_choices_header` the itemsets.csv header followed a set -/
+theorem itemsets_header_prefix_order_dependent :
+    itemsetsHeaderPre SetOrder.rev none [["list_name".toList, "name".toList], ["name".toList, "state".toList]]
+      ≠ itemsetsHeaderPre SetOrder.id none [["list_name".toList, "name".toList], ["name".toList, "state".toList]] := by decide
+
+/-- the repaired fallback is one of the orders the old code could produce (first-seen order) -/
+theorem itemsets_header_fixed_is_one_set_order (h : Option (List Str)) (rows : List (List Str)) :
+    itemsetsHeader h rows = itemsetsHeaderPre SetOrder.id h rows := by cases h <;> rfl
+
+example : itemsetsHeader none [["list_name".toList, "name".toList], ["name".toList, "state".toList]]
+    = ["list_name".toList, "name".toList, "state".toList] := by decide
+
+/-- Counter-witness for the defect class "de-duplicate the namespace declarations through a set":
+the order of the xmlns attributes would follow the set. -/
+theorem nsmap_set_iteration_order_dependent :
+    nsmapOfSet SetOrder.rev [] ["esri=http://esri.com/x".toList, "enk=http://enketo.org/x".toList]
+      ≠ nsmapOfSet SetOrder.id [] ["esri=http://esri.com/x".toList, "enk=http://enketo.org/x".toList] := by decide
 
 /-- **All set-iteration sites of the repaired code that file input can reach**: for every iteration
 order of every set, the pulldata instance order, the padded itext table, the missing-header list
-(for the required-header sets of the current source) and the itemsets header (header row present)
-are the same. -/
+(for the required-header sets of the current source) and the itemsets header (header row present
+or not) are the same. -/
 theorem set_order_irrelevant (π : SetOrder) (x : SetSiteInput)
     (hreq : ∃ e ∈ requiredHeaders, x.required = e.2.map String.toList) : outπ π x = out x := by
   obtain ⟨e, he, hx⟩ := hreq
   have hl : x.required.length ≤ 1 := by rw [hx, List.length_map]; exact required_headers_singletons e he
-  simp only [out, outπ, pulldata_order_irrelevant π, missing_order_irrelevant π _ _ hl, itemsetsHeader]
+  simp only [out, outπ, pulldata_order_irrelevant π, missing_order_irrelevant π _ _ hl]
 
 example : ∃ e ∈ requiredHeaders, ["type".toList] = e.2.map String.toList := by decide
 
